@@ -103,7 +103,12 @@ func Variants(samIn, refIn io.Reader, refFromFile bool, annoIn io.Reader, annoSu
 
 	go groupSamRecords(samIn, cSH, cSR, cReadDone, cErr)
 
-	_ = <-cSH
+	// wait for the header, or for the error if the sam file could not be read at all
+	select {
+	case err := <-cErr:
+		return err
+	case <-cSH:
+	}
 
 	var wgAlign sync.WaitGroup
 	wgAlign.Add(threads)
